@@ -35,6 +35,10 @@ def run(ck, replay=None):
         meta.append(("native", m, r, "cells", None))
         jobs.append(tp.native_job(exe, "mixed", ck.seed + 100 + i, n_mixed, timeout=150 if quick else 1800))
         meta.append(("native", m, r, "mixed", None))
+        # same mixture with the monitor's quarantine off: freed join states are re-used at once, so a stale kernel
+        # or runtime pointer into a freed join state hits the NEXT thread's join word / result
+        jobs.append(tp.native_job(exe, "mixed", ck.seed + 120 + i, n_mixed, quar=0, timeout=150 if quick else 1800))
+        meta.append(("native", m, r, "mixed", None))
         # the kernel may end any futex wait early (EINTR, or a wake-up meant for an earlier user of the word):
         # injected at the futex hook while joins really park
         for scen in ("spurious_eintr", "spurious_wake", "exit_window"):
@@ -46,6 +50,10 @@ def run(ck, replay=None):
         meta.append(("sysmon", m, r, "cells", log))
         if i >= 5000:
             continue    # the refusal positions are enumerated once per flavour, not per repetition
+        # a closure that panics while printing (print lock held by the dying thread): join must still return None
+        log = tp.tmp_log("c05-panicprint")
+        jobs.append(tp.sysmon_job(exe, "panic_in_print", ck.seed + 250 + i, 3, log, timeout_s=8))
+        meta.append(("sysmon", m, r, "panic_in_print", log))
         calls = spawn_calls.get((m, r))
         if not calls:
             ck.note_inconclusive("%s/%s: spawn's system calls could not be read from the un-injected run" % (m, "release" if r else "debug"))
@@ -138,6 +146,20 @@ def run(ck, replay=None):
                     if e.a[2] != e.a[1]:
                         ck.count("refused_call_tolerated_thread_ran_and_joined")
                         ck.note_distinct("fault/%s/tolerated" % scen)
+            continue
+        if scen == "panic_in_print":
+            ck.consume(text, context=label)
+            cert = tp.hang_certificate(evs)
+            if cert:
+                ck.violation("C05/join/never-returns-after-panic-inside-print", dict(label=label, certificate=cert))
+            elif rr["rc"] == 124 or rr["timed_out"]:
+                ck.note_inconclusive("%s: watchdog fired without a hang certificate" % label)
+            elif rr["rc"] is not None and rr["rc"] >= 128 and rr["rc"] not in (124, 125):
+                ck.violation("C05/probe-crash/panic_in_print", dict(label=label, exit_status=rr["rc"]))
+            elif rr["rc"] != 0:
+                ck.note_inconclusive("%s: exit status %s" % (label, rr["rc"]))
+            else:
+                ck.note_distinct("flavour/%s/%s/panic_in_print" % (m, "release" if r else "debug"))
             continue
         # traced cells run
         if not ck.consume_result(rr2, label):
